@@ -1,19 +1,20 @@
 #!/bin/bash
 # usage: confirm_seed.sh <seed_dir> <name>
 # Confirms a seeded change in a scratch worktree of /repo HEAD: baseline demo passes, patch applies,
-# library builds, the 17 tests pass, demo fails. Writes <seed_dir>/confirm.json. Removes the worktree.
+# library builds, the 17 tests pass, demo fails. SAN=1 builds library, tests and demo with ASan+UBSan (memory-safety seeds). Writes <seed_dir>/confirm.json. Removes the worktree.
 sd=$1; name=$2; W=/tmp/cs/$name
 mkdir -p /tmp/cs; git -C /repo worktree remove --force $W 2>/dev/null; rm -rf $W
 git -C /repo worktree add -q --detach $W HEAD || exit 2
 res() { echo "{\"name\":\"$name\",\"repo_head\":\"$(git -C /repo rev-parse --short HEAD)\",\"applies\":$1,\"builds\":$2,\"tests_pass\":$3,\"demo_base_rc\":$4,\"demo_patched_rc\":$5}" > $sd/confirm.json; cat $sd/confirm.json; }
 cd $W
-cmake -G Ninja -B _build -DCMAKE_BUILD_TYPE=RelWithDebInfo . >/dev/null 2>&1 && cmake --build _build -j4 >/dev/null 2>&1 || { res false false false -1 -1; git -C /repo worktree remove --force $W; exit 1; }
-g++ -std=c++14 -O1 -g -Iinclude $sd/demo.cpp _build/libsimulator.a -lboost_system -lpthread -o demo_base 2>demo_base.err || { res false true false -2 -1; git -C /repo worktree remove --force $W; exit 1; }
+SANF=""; [ -n "$SAN" ] && SANF="-fsanitize=address,undefined -fno-omit-frame-pointer -D_GLIBCXX_ASSERTIONS"
+cmake -G Ninja -B _build -DCMAKE_BUILD_TYPE=RelWithDebInfo -DCMAKE_CXX_FLAGS="$SANF" . >/dev/null 2>&1 && cmake --build _build -j4 >/dev/null 2>&1 || { res false false false -1 -1; git -C /repo worktree remove --force $W; exit 1; }
+g++ -std=c++14 -O1 -g $SANF -Iinclude $sd/demo.cpp _build/libsimulator.a -lboost_system -lpthread -o demo_base 2>demo_base.err || { res false true false -2 -1; git -C /repo worktree remove --force $W; exit 1; }
 timeout 300 ./demo_base > $sd/out_base.txt 2>&1; rb=$?
 if git apply $sd/patch.diff 2>/dev/null || git apply -C1 $sd/patch.diff 2>/dev/null; then ap=true; else ap=false; res false true false $rb -1; git -C /repo worktree remove --force $W; exit 1; fi
 if cmake --build _build -j4 >/dev/null 2>&1; then b=true; else res true false false $rb -1; git -C /repo worktree remove --force $W; exit 1; fi
 if ctest --test-dir _build -j4 --timeout 900 >/dev/null 2>&1; then t=true; else t=false; fi
-g++ -std=c++14 -O1 -g -Iinclude $sd/demo.cpp _build/libsimulator.a -lboost_system -lpthread -o demo_patched 2>/dev/null
+g++ -std=c++14 -O1 -g $SANF -Iinclude $sd/demo.cpp _build/libsimulator.a -lboost_system -lpthread -o demo_patched 2>/dev/null
 timeout 300 ./demo_patched > $sd/out_patched.txt 2>&1; rp=$?
 res $ap $b $t $rb $rp
 cd /; git -C /repo worktree remove --force $W
